@@ -27,6 +27,12 @@ MUTATORS = set(SET_MUTATORS + LIST_MUTATORS + DICT_MUTATORS)
 
 class BuiltinsMixin(object):
 
+    observer = None
+
+    def obs(self, kind, operands, path, node):
+        if self.observer is not None:
+            self.observer(self, kind, operands, path, node)
+
     # ------------------------------------------------------------------
     def eval(self, node, fr, path):
         m = getattr(self, 'ex_' + node.__class__.__name__, None)
@@ -230,6 +236,8 @@ class BuiltinsMixin(object):
 
     def binop(self, op, a, b, path, node, inplace=False):
         sym = BIN[type(op)]
+        if sym in ('+', '-', '*', '/', '//', '**', '<<', '>>'):
+            self.obs('arith', (a, b), path, node)
         if isinstance(a, Const) and isinstance(b, Const):
             try:
                 return [(path, Const(eval('a %s b' % sym,
@@ -333,6 +341,7 @@ class BuiltinsMixin(object):
         return App('fmt', Const(style), Const(template), Tup(sargs))
 
     def to_str(self, v, path, node):
+        self.obs('str', (v,), path, node)
         """str(v) as a value (single path; forks inside __str__ are not
         expected)"""
         if isinstance(v, Const):
@@ -385,6 +394,12 @@ class BuiltinsMixin(object):
         return out
 
     def compare(self, op, a, b, path, node):
+        if op in ('<', '>', '<=', '>='):
+            self.obs('order', (a, b), path, node)
+        elif op in ('==', '!='):
+            self.obs('eq', (a, b), path, node)
+        elif op in ('in', 'not in'):
+            self.obs('in', (a,), path, node)
         if op in ('is', 'is not'):
             r = self.identical(a, b, path)
             if r is not None:
@@ -664,6 +679,7 @@ class BuiltinsMixin(object):
         return t
 
     def get_attr(self, v, name, path, node):
+        self.obs('attr', (v, Const(name)), path, node)
         r = self.hooks.getattr(self, v, name, path, node)
         if r is not None:
             return r
@@ -795,6 +811,7 @@ class BuiltinsMixin(object):
         return [(path, App('slice', *vals))]
 
     def get_item(self, base, idx, path, node):
+        self.obs('subscript', (base,), path, node)
         if isinstance(base, App) and base.op == 'classattr':
             base = base.args[2]
         if isinstance(base, ERef) and base.name == 'sys.modules' and \
@@ -1057,6 +1074,7 @@ class BuiltinsMixin(object):
 
     # -- builtin functions --------------------------------------------------
     def bi_isinstance(self, args, kw, path, node):
+        self.obs('isinstance', tuple(args[:1]), path, node)
         if len(args) != 2:
             return [(path, App('call', BRef('isinstance'), Tup(args)))]
         v, c = args
@@ -1163,6 +1181,8 @@ class BuiltinsMixin(object):
     def bi_sorted(self, args, kw, path, node):
         res = self._coll_from('list', args[:1], path, node)
         kwd = dict(kw)
+        if 'key' not in kwd:
+            self.obs('sort', (args[0],), path, node)
         self.event(path, 'sorted', args[0], None,
                    (kwd.get('key', Const(None)),), node)
         return res
@@ -1254,9 +1274,13 @@ class BuiltinsMixin(object):
         return [(path, App('type', args[0]))]
 
     def bi_min(self, args, kw, path, node):
+        if 'key' not in dict(kw):
+            self.obs('sort', tuple(args), path, node)
         return [(path, App('min', *[self.snapshot(a, path) for a in args]))]
 
     def bi_max(self, args, kw, path, node):
+        if 'key' not in dict(kw):
+            self.obs('sort', tuple(args), path, node)
         if all(isinstance(a, Const) for a in args) and len(args) > 1:
             return [(path, Const(max(a.v for a in args)))]
         return [(path, App('max', *[self.snapshot(a, path) for a in args]))]
